@@ -135,9 +135,21 @@ func runC20(c *engine.Ctx) {
 		c.AllPaths("pkg/nathole.getBehaviorByMode", engine.PathCheck{Fn: f, Sink: engine.IsReturn, Pred: func(st *engine.PathState) string {
 			r := st.Sink.(*ssa.Return)
 			g := ""
-			if u, ok := st.Resolve(r.Results[0]).(*ssa.UnOp); ok {
+			rv := st.Resolve(r.Results[0])
+			if u, ok := rv.(*ssa.UnOp); ok {
 				if gl, ok := u.X.(*ssa.Global); ok {
 					g = gl.Name()
+				}
+			}
+			// table-of-tables form: behaviorsByMode[mode] — the map literal is evaluated (package init) and must send
+			// every key k to modekBehaviors; it is written nowhere else
+			if ex, ok := rv.(*ssa.Extract); ok && ex.Index == 0 {
+				if lk, ok := ex.Tuple.(*ssa.Lookup); ok && isParam("mode")(lk.Index) {
+					if mu, ok := lk.X.(*ssa.UnOp); ok {
+						if mg, ok := mu.X.(*ssa.Global); ok {
+							return evalModeMap(p, mg)
+						}
+					}
 				}
 			}
 			k := int64(-1)
@@ -415,15 +427,44 @@ func runC20(c *engine.Ctx) {
 			c.Check(okClamp, "pkg/nathole.getRangePorts>"+fv.Name(), in.Pos(), 1, nil, "%s is clamped with %s(…, %d)", fv.Name(), want, wantK)
 		})
 	}
-	if f := fn(c, "pkg/nathole.ClassifyNATFeature"); f != nil {
+	if f0 := fn(c, "pkg/nathole.ClassifyNATFeature"); f0 != nil {
+		// the port check sits in ClassifyNATFeature or in a same-package helper it calls per address
 		var atoi *ssa.Call
-		engine.ForEachInstr(f, func(in ssa.Instruction) {
-			if call, ok := in.(*ssa.Call); ok {
-				if o := engine.CalleeObj(call); o != nil && o.Name() == "Atoi" {
-					atoi = call
+		f := f0
+		for _, host := range withHelpers(f0) {
+			engine.ForEachInstr(host, func(in ssa.Instruction) {
+				if call, ok := in.(*ssa.Call); ok && atoi == nil {
+					if o := engine.CalleeObj(call); o != nil && o.Name() == "Atoi" {
+						atoi = call
+						f = host
+					}
+				}
+			})
+		}
+		if f != f0 {
+			// the helper's verdict is honoured: after the call, ClassifyNATFeature goes on only with a nil error
+			if hobj, _ := f.Object().(*types.Func); hobj != nil {
+				for _, hc := range engine.CallsTo(f0, hobj) {
+					hcv := hc.Value()
+					n++
+					c.AllPaths("pkg/nathole.ClassifyNATFeature>helper-error", engine.PathCheck{Fn: f0, From: hc, KeepLoopFacts: true,
+						Sink: func(in ssa.Instruction) bool { return in == hc.(ssa.Instruction) || engine.IsReturn(in) },
+						Pred: func(st *engine.PathState) string {
+							if r, ok := st.Sink.(*ssa.Return); ok && !engine.IsNilConst(st.Resolve(r.Results[len(r.Results)-1])) {
+								return ""
+							}
+							if v, k := st.IsNil(func(x ssa.Value) bool {
+								cl, i := engine.ResultOfCall(x)
+								tup, isT := hcv.Type().(*types.Tuple)
+								return cl != nil && ssa.Value(cl) == hcv && isT && i == tup.Len()-1
+							}); !(k && v) {
+								return "the address helper's error is not honoured: an address it rejected is used"
+							}
+							return ""
+						}}, "helper error honoured")
 				}
 			}
-		})
+		}
 		if atoi == nil {
 			c.Undecide("pkg/nathole.ClassifyNATFeature>port-range", f.Pos(), "port parsing not found")
 		} else {
@@ -432,7 +473,7 @@ func runC20(c *engine.Ctx) {
 				Sink: func(in ssa.Instruction) bool { return in == ssa.Instruction(atoi) || engine.IsReturn(in) },
 				Pred: func(st *engine.PathState) string {
 					if r, ok := st.Sink.(*ssa.Return); ok {
-						ev := st.Resolve(r.Results[1])
+						ev := st.Resolve(r.Results[len(r.Results)-1])
 						if !engine.IsNilConst(ev) {
 							return "" // error exit
 						}
@@ -792,4 +833,61 @@ func isRecommandCall(v ssa.Value) bool {
 	}
 	o := engine.CalleeObj(call)
 	return o != nil && o.Name() == "Recommand"
+}
+
+// evalModeMap evaluates a package-level map[int]table literal: every entry k must be the global mode<k>Behaviors, and
+// no function other than the package initialiser may write the map. Returns "" when that holds.
+func evalModeMap(p *engine.Prog, mg *ssa.Global) string {
+	entries := 0
+	bad := ""
+	for _, f := range p.RepoFuncs() {
+		engine.ForEachInstr(f, func(in ssa.Instruction) {
+			mu, ok := in.(*ssa.MapUpdate)
+			if !ok {
+				return
+			}
+			src := engine.Provenance(mu.Map, engine.ProvOpts{})
+			isG := false
+			for gl := range src.Globals {
+				if gl == mg {
+					isG = true
+				}
+			}
+			// the literal is built in a temporary and then stored to the global: accept the make-map that flows into it
+			if !isG {
+				if mm, ok := mu.Map.(*ssa.MakeMap); ok && mm.Referrers() != nil {
+					for _, r := range *mm.Referrers() {
+						if st, ok := r.(*ssa.Store); ok && st.Addr == ssa.Value(mg) {
+							isG = true
+						}
+					}
+				}
+			}
+			if !isG {
+				return
+			}
+			if f.Name() != "init" {
+				bad = "the mode table map is written outside the package initialiser (" + p.FuncName(f) + ")"
+				return
+			}
+			k, okK := engine.ConstInt(mu.Key)
+			name := ""
+			if u, ok := mu.Value.(*ssa.UnOp); ok {
+				if gl, ok := u.X.(*ssa.Global); ok {
+					name = gl.Name()
+				}
+			}
+			entries++
+			if !okK || name != fmt.Sprintf("mode%dBehaviors", k) {
+				bad = fmt.Sprintf("mode %d is served from table %s", k, name)
+			}
+		})
+	}
+	if bad != "" {
+		return bad
+	}
+	if entries < 5 {
+		return fmt.Sprintf("the mode table map has %d entries (5 expected)", entries)
+	}
+	return ""
 }
